@@ -4,7 +4,7 @@
    (within [min,max], non-increasing in n), which is evaluated on the code's own table on every run. *)
 From Coq Require Import List NArith ZArith Bool.
 Import ListNotations.
-From VF Require Import Base Susp Susp_proofs Core Core_lemmas Core_inv Core_props.
+From VF Require Import Base Susp Susp_proofs Core Core_lemmas Core_inv Core_props Extra_proofs.
 Local Open Scope Z_scope.
 
 (* every timed sequence of confirmations (any senders, duplicates, the accuser, any non-decreasing
@@ -74,6 +74,18 @@ Theorem C06_timer_only_for_suspects : forall c, fixed c = true -> forall ops s,
   exists r, lk (fst (run c s ops)) (tname t) = Some r /\ rst r = Suspect.
 Proof. intros c Hf ops s HI HR. exact (inv_t _ _ (proj1 (run_FInv c Hf ops s HI HR))). Qed.
 Print Assumptions C06_timer_only_for_suspects.
+
+(* "... unless it first accepts a refutation (the peer stays)": the timeout callback checks under the lock, releases
+   it, and applies its death claim at the incarnation it checked.  If the member's alive message at a higher
+   incarnation is processed in between, the death claim is stale: nothing changes and the member is listed alive
+   (the harness drives exactly this interleaving on the implementation, CoreCheck.check_split) *)
+Theorem C06_refutation_before_death_claim : forall c s inc name addr meta vsn r from,
+  lk s name = Some r -> name <> self c -> raddr r = addr -> (rinc r < inc)%N -> vsn_bad vsn = false ->
+  let s' := fst (do_alive c s inc name addr meta vsn false) in
+  do_dead c s' (rinc r) name from = (s', []) /\
+  exists r', lk s' name = Some r' /\ rst r' = Alive /\ rinc r' = inc.
+Proof. exact refutation_before_death_claim. Qed.
+Print Assumptions C06_refutation_before_death_claim.
 
 (* non-vacuity: the schedule table of SuspicionMult = 4, 1 s interval (k = 2, min 4 s, max 24 s) *)
 Example C06_table_ok : T_ok (T_of [0; 11381000000; 4000000000] 4000000000) 2 4000000000 24000000000.
